@@ -69,6 +69,8 @@ def gen_model(rng, modname, profile="orm"):
                 fd["optspell"] = rng.choice([0, 0, 0, 1, 2, 3])      # how the Optional is written
             if profile == "rt" and kind != "private" and rng.random() < 0.12:
                 fd["kw_only"] = True    # dataclass field(kw_only=True): a keyword-only constructor argument
+            elif profile == "rt" and kind in ("set_ref", "list_ref") and rng.random() < 0.15:
+                fd["opt_wrapped"] = True    # Optional[Set[X]] / Optional[List[X]]: a collection that may be missing (it never is here)
             elif profile == "rt" and kind not in ("private", "ref") and fname != "uid" and rng.random() < 0.1:
                 fd["no_init"] = True    # dataclass field(init=False): not a constructor argument, a field like any other
             fields.append(fd)
@@ -128,6 +130,8 @@ def annotation(f, quote=False):
     if f.get("kw_only"):
         # a keyword-only constructor argument
         dflt = dflt[:-1] + ", kw_only=True)" if dflt.startswith("field(") else f"field(default={dflt}, kw_only=True)"
+    if f.get("opt_wrapped"):
+        ann = f"Optional[{ann}]"
     if f.get("no_init"):
         dflt = dflt[:-1] + ", init=False)" if dflt.startswith("field(") else f"field(default={dflt}, init=False)"
     return ann, dflt
